@@ -27,14 +27,26 @@ pub(crate) mod verif_enc {
     pub static mut PAYLOAD_DONE: usize = 0; // plaintext bytes of the chunks whose record is completely in the sink
     pub static mut MAX_LAG: usize = 0; // max over read calls of (consumed - PAYLOAD_DONE)
     pub static mut AADLEN: usize = 0;
+    pub static mut NAT_LEN: usize = 0; // native replay: ciphertext bytes accepted by the sink so far
 
     /// Scripted plaintext source: every call returns a solver-chosen count 1..=min(buf, remaining)
     /// (or everything when `full`), 0 at EOF, or a fault at call index `fault_at`.
-    pub struct SR { pub data: [u8; MAXP], pub len: usize, pub pos: usize, pub calls: usize, pub full: bool,
+    pub struct SR { pub data: [u8; MAXP], pub len: usize, pub pos: usize, pub calls: usize, pub full: bool, pub sched: [usize; MAXR],
                     pub fault_at: usize, pub fault_kind: u8, pub sizes: [usize; MAXR], pub maxbuf: usize, pub faulted: bool }
     impl SR {
+        /// the read schedule is drawn up front (one solver-chosen count per call index) so that the order of
+        /// `kani::any()` draws is the same under verification and in the native replay
         pub fn new(data: [u8; MAXP], len: usize, full: bool) -> Self {
-            SR { data, len, pos: 0, calls: 0, full, fault_at: NONE, fault_kind: 0, sizes: [0; MAXR], maxbuf: 0, faulted: false }
+            let sched: [usize; MAXR] = if full { [0; MAXR] } else { kani::any() };
+            SR { data, len, pos: 0, calls: 0, full, sched, fault_at: NONE, fault_kind: 0, sizes: [0; MAXR], maxbuf: 0, faulted: false }
+        }
+        /// plaintext bytes of the records that are completely in the (native) sink, from the read log
+        fn native_done(&self) -> usize {
+            let have = unsafe { NAT_LEN };
+            let (mut end, mut done) = (0usize, 0usize);
+            let mut i = 0;
+            while i < MAXR { if self.sizes[i] > 0 || (i == 0 && self.len == 0) { end += 32 + self.sizes[i]; if end <= have { done += self.sizes[i]; } } i += 1; }
+            done
         }
     }
     impl Read for SR {
@@ -43,14 +55,15 @@ pub(crate) mod verif_enc {
             self.calls += 1;
             if buf.len() > self.maxbuf { self.maxbuf = buf.len(); }
             unsafe {
-                let lag = SRC_POS - PAYLOAD_DONE;
+                let done = if native() { self.native_done() } else { PAYLOAD_DONE };
+                let lag = SRC_POS - done;
                 if lag > MAX_LAG { MAX_LAG = lag; }
             }
             if c == self.fault_at { self.faulted = true; return Err(io_err(self.fault_kind)); }
             let rem = self.len - self.pos;
             if rem == 0 || buf.len() == 0 { return Ok(0); }
             let maxk = if rem < buf.len() { rem } else { buf.len() };
-            let k: usize = if self.full { maxk } else { kani::any() };
+            let k: usize = if self.full { maxk } else if c < MAXR { self.sched[c] } else { maxk };
             kani::assume(k >= 1 && k <= maxk && k <= MAXCS);
             vrep!(3, j, { if j < k { buf[j] = self.data[self.pos + j]; } });
             if c < MAXR { self.sizes[c] = k; }
@@ -93,11 +106,13 @@ pub(crate) mod verif_enc {
     /// Ok(0) at a chosen write / flush call. Partial writes: ShortSink.
     pub struct Sink { pub ci: usize, pub wi: usize, pub len: usize, pub writes: usize, pub flushes: usize, pub flushed_len: usize,
                       pub wfault_at: usize, pub ffault_at: usize, pub fault_kind: u8, pub zero_at: usize,
-                      pub mismatch: bool, pub beyond: bool, pub limit: bool, pub faulted: bool, pub after_fault: bool, pub interrupted_once: bool }
+                      pub mismatch: bool, pub beyond: bool, pub limit: bool, pub faulted: bool, pub after_fault: bool, pub interrupted_once: bool,
+                      pub nat: Vec<u8> }
     impl Sink {
         pub fn new() -> Self {
             Sink { ci: 0, wi: 0, len: 0, writes: 0, flushes: 0, flushed_len: 0, wfault_at: NONE, ffault_at: NONE,
-                   fault_kind: 3, zero_at: NONE, mismatch: false, beyond: false, limit: false, faulted: false, after_fault: false, interrupted_once: false }
+                   fault_kind: 3, zero_at: NONE, mismatch: false, beyond: false, limit: false, faulted: false, after_fault: false, interrupted_once: false,
+                   nat: Vec::new() }
         }
         fn take(&mut self, buf: &[u8]) {
             let a = unsafe { AADLEN };
@@ -134,6 +149,13 @@ pub(crate) mod verif_enc {
                 return Err(io_err(self.fault_kind));
             }
             if c == self.zero_at { self.faulted = true; return Ok(0); }
+            if native() {
+                // native replay: real AEAD, so just keep the bytes; they are compared with the reference encoding afterwards
+                self.nat.extend_from_slice(buf);
+                self.len += buf.len();
+                unsafe { NAT_LEN = self.len; }
+                return Ok(buf.len());
+            }
             self.take(buf);
             self.len += buf.len();
             Ok(buf.len())
@@ -171,9 +193,15 @@ pub(crate) mod verif_enc {
     /// For single-record files (chunk size 1): the expected record is laid out once in a 36-byte array and every
     /// accepted byte is compared against it at the running offset.
     pub struct ShortSink { pub exp: [u8; 36], pub exp_len: usize, pub built: bool, pub pos: usize, pub writes: usize, pub flushed_len: usize,
-                           pub mismatch: bool, pub beyond: bool, pub limit: bool, pub in_rest: bool, pub splits: usize }
+                           pub mismatch: bool, pub beyond: bool, pub limit: bool, pub in_rest: bool, pub splits: usize,
+                           pub ks: [usize; 4], pub firsts: usize, pub nat: Vec<u8> }
     impl ShortSink {
-        pub fn new() -> Self { ShortSink { exp: [0; 36], exp_len: 0, built: false, pos: 0, writes: 0, flushed_len: 0, mismatch: false, beyond: false, limit: false, in_rest: false, splits: 0 } }
+        /// split points are drawn up front (same draw order under verification and in the native replay)
+        pub fn new() -> Self {
+            let ks: [usize; 4] = kani::any();
+            ShortSink { exp: [0; 36], exp_len: 0, built: false, pos: 0, writes: 0, flushed_len: 0, mismatch: false, beyond: false, limit: false, in_rest: false, splits: 0,
+                        ks, firsts: 0, nat: Vec::new() }
+        }
         fn build(&mut self) {
             if self.built { return; }
             self.built = true;
@@ -199,10 +227,11 @@ pub(crate) mod verif_enc {
             self.writes += 1;
             if buf.len() == 0 { return Ok(0); }
             if buf.len() > 20 { self.limit = true; return Ok(buf.len()); }
-            self.build();
-            let k: usize = if self.in_rest { buf.len() } else { kani::any() };
+            if !native() { self.build(); }
+            let k: usize = if self.in_rest { buf.len() } else if self.firsts < 4 { let f = self.firsts; self.firsts += 1; self.ks[f] } else { buf.len() };
             kani::assume(k >= 1 && k <= buf.len());
             if !self.in_rest && k < buf.len() { self.in_rest = true; self.splits += 1; } else { self.in_rest = false; }
+            if native() { self.nat.extend_from_slice(&buf[..k]); self.pos += k; return Ok(k); }
             if self.pos + k > self.exp_len { self.beyond = true; self.pos += k; return Ok(k); }
             let p = self.pos;
             vrep!(20, j, { if j < k && buf[j] != self.exp[p + j] { self.mismatch = true; } });
@@ -210,6 +239,48 @@ pub(crate) mod verif_enc {
             Ok(k)
         }
         fn flush(&mut self) -> std::io::Result<()> { self.flushed_len = self.pos; Ok(()) }
+    }
+
+    // ------------------------------------------------------------------ native replay twin (cargo kani playback)
+    /// docs/file-format.txt, executed with the REAL AEAD: the file for plaintext `p` split into chunks of `sizes`.
+    pub fn native_reference(p: &[u8], sizes: &[usize], aad: &[u8], key: &[u8]) -> Vec<u8> {
+        let mut out = Vec::new();
+        let chunks: Vec<usize> = sizes.iter().cloned().filter(|&k| k > 0).collect();
+        let chunks = if chunks.is_empty() { vec![0usize] } else { chunks };
+        let mut off = 0usize;
+        for (i, &l) in chunks.iter().enumerate() {
+            let last: u32 = if i + 1 == chunks.len() { 1 } else { 0 };
+            let mut ad = aad.to_vec();
+            ad.extend_from_slice(&last.to_be_bytes());
+            ad.extend_from_slice(&(l as u32).to_be_bytes());
+            out.extend_from_slice(&(i as u64).to_be_bytes());
+            out.extend_from_slice(&last.to_be_bytes());
+            out.extend_from_slice(&(l as u32).to_be_bytes());
+            out.extend_from_slice(&crate::chapoly_encrypt_noise(key, i as u64, &ad, &p[off..off + l]));
+            off += l;
+        }
+        out
+    }
+    /// native counterpart of check_seals + check_sink: what the real encryptor wrote, against the reference encoding.
+    pub fn native_check(r: &SR, w: &Sink, aad: &[u8], cs: usize, key: &[u8], complete: bool) {
+        if complete {
+            let reference = native_reference(&r.data[..r.len], &r.sizes, aad, key);
+            assert!(r.pos == r.len, "[C01,C02,C06,C08] native: on success the whole plaintext has been read and sealed");
+            assert!(w.nat == reference, "[C01,C02,C06,C07,C08] native: the encryptor's output equals the documented format byte for byte (real ChaCha20-Poly1305; chunk i under nonce i; one chunk per read; last flag on the final chunk only)");
+            assert!(w.flushed_len == w.nat.len(), "[C10,C12] native: on success everything written has been flushed");
+            // and it decrypts back
+            let mut back = Vec::new();
+            let d = crate::decrypt::verif_dec::native_decrypt(&w.nat, &mut back, key, aad, cs);
+            assert!(d && back == &r.data[..r.len], "[C01,C02] native: the real decryptor turns the output back into exactly the plaintext");
+        } else {
+            // a failed run: what was written is a prefix of what the fault-free run (same data, same read schedule) writes
+            let mut r2 = SR { data: r.data, len: r.len, pos: 0, calls: 0, full: r.full, sched: r.sched, fault_at: NONE, fault_kind: 0, sizes: [0; MAXR], maxbuf: 0, faulted: false };
+            let mut w2 = Sink::new();
+            unsafe { SRC_POS = 0; NAT_LEN = 0; }
+            let ok2 = encrypt_chunks(&mut r2, &mut w2, key, aad, cs as u32).is_ok();
+            assert!(ok2, "[C10] native: the fault-free run succeeds");
+            assert!(w.nat.len() <= w2.nat.len() && w.nat[..] == w2.nat[..w.nat.len()], "[C10] native: what has been written when the failure is reported is a prefix of the fault-free output");
+        }
     }
 
     /// Post-check on the seal log: nonce_i = i; AAD_i = aad || BE32(last_i) || BE32(|chunk i|); the sealed
@@ -267,6 +338,13 @@ pub(crate) mod verif_enc {
         let key = [0x11u8; 32];
         let res = encrypt_chunks(&mut r, &mut w, &key, aad, cs as u32);
         assert!(res.is_ok(), "[C01,C02,C10] fault-free encryption succeeds for every plaintext and read partition");
+        if native() {
+            native_check(&r, &w, aad, cs, &key, true);
+            assert!(r.maxbuf <= cs, "[C11,C09] native: no read asks for more than one chunk");
+            assert!(unsafe { MAX_LAG } <= 2 * cs, "[C11] native: at most two chunks of input consumed beyond what has been written");
+            core::mem::forget(res);
+            return (len, 0);
+        }
         let n = check_seals(&r, aad, cs, true);
         check_sink(&w, n, len, true);
         assert!(r.maxbuf <= cs, "[C11,C09] no read asks for more than one chunk");
@@ -281,6 +359,7 @@ pub(crate) mod verif_enc {
     /// EVERY read partition.
     #[kani::proof]
     #[kani::stub(crate::chapoly_encrypt_noise, seal_model)]
+    #[kani::stub(crate::verif_common::native, crate::verif_common::native_false)]
     #[kani::unwind(4)]
     pub fn enc_format_cs2_key() {
         let (len, n) = enc_format(2, 3, false, false);
@@ -293,6 +372,7 @@ pub(crate) mod verif_enc {
     /// Same in password mode (aad = 65 67 6B 20).
     #[kani::proof]
     #[kani::stub(crate::chapoly_encrypt_noise, seal_model)]
+    #[kani::stub(crate::verif_common::native, crate::verif_common::native_false)]
     #[kani::unwind(4)]
     pub fn enc_format_cs2_pass() {
         let (len, n) = enc_format(2, 3, true, false);
@@ -304,6 +384,7 @@ pub(crate) mod verif_enc {
     /// cs=1, up to 4 bytes => up to 4 chunks (deep enough for "collect then write" to exceed the streaming bound).
     #[kani::proof]
     #[kani::stub(crate::chapoly_encrypt_noise, seal_model)]
+    #[kani::stub(crate::verif_common::native, crate::verif_common::native_false)]
     #[kani::unwind(5)]
     pub fn enc_format_cs1() {
         let (len, n) = enc_format(1, 4, false, true);
@@ -314,6 +395,7 @@ pub(crate) mod verif_enc {
     /// cs=3, plaintext 0..=5, every read partition (thorough).
     #[kani::proof]
     #[kani::stub(crate::chapoly_encrypt_noise, seal_model)]
+    #[kani::stub(crate::verif_common::native, crate::verif_common::native_false)]
     #[kani::unwind(6)]
     pub fn enc_format_cs3_key() {
         let (len, n) = enc_format(3, 5, false, false);
@@ -323,6 +405,7 @@ pub(crate) mod verif_enc {
     }
     #[kani::proof]
     #[kani::stub(crate::chapoly_encrypt_noise, seal_model)]
+    #[kani::stub(crate::verif_common::native, crate::verif_common::native_false)]
     #[kani::unwind(6)]
     pub fn enc_format_cs3_pass() {
         let (len, n) = enc_format(3, 5, true, false);
@@ -334,6 +417,7 @@ pub(crate) mod verif_enc {
     /// C10 (encrypt side): one fault at a solver-chosen read / write / flush call, or an Ok(0) write.
     #[kani::proof]
     #[kani::stub(crate::chapoly_encrypt_noise, seal_model)]
+    #[kani::stub(crate::verif_common::native, crate::verif_common::native_false)]
     #[kani::unwind(4)]
     pub fn enc_faults_cs2() {
         let data: [u8; MAXP] = kani::any();
@@ -364,6 +448,12 @@ pub(crate) mod verif_enc {
             Err(EncryptError::IOWrite(_)) => { assert!(w.faulted && !r.faulted, "[C10] IOWrite reported only for a failing write or flush"); }
             Err(_) => { assert!(false, "[C10] an I/O fault is reported as IORead/IOWrite, nothing else fails"); }
         }
+        if native() {
+            assert!(!w.after_fault, "[C10] native: nothing is written or flushed after a reported failure");
+            native_check(&r, &w, &[], 2, &key, ok);
+            core::mem::forget(res);
+            return;
+        }
         let n = check_seals(&r, &[], 2, ok);
         check_sink(&w, n, len, ok);
         assert!(!w.after_fault, "[C10] nothing is written or flushed after a reported failure");
@@ -379,6 +469,7 @@ pub(crate) mod verif_enc {
     /// point; std's real write_all loop): result and bytes unchanged.
     #[kani::proof]
     #[kani::stub(crate::chapoly_encrypt_noise, seal_model)]
+    #[kani::stub(crate::verif_common::native, crate::verif_common::native_false)]
     #[kani::unwind(4)]
     pub fn enc_short_writes_cs1() {
         let data: [u8; MAXP] = kani::any();
@@ -391,6 +482,13 @@ pub(crate) mod verif_enc {
         let res = encrypt_chunks(&mut r, &mut w, &key, &[], 1);
         assert!(!w.limit, "[LIMIT] write-call structure outside what this harness models (a call > 20 bytes)");
         assert!(res.is_ok(), "[C01,C02,C10] partial writes are harmless: encryption succeeds");
+        if native() {
+            let reference = native_reference(&r.data[..r.len], &r.sizes, &[], &key);
+            assert!(w.nat == reference, "[C10,C01,C02,C06] native: with partial writes the byte stream still equals the documented format (no byte lost or repeated)");
+            assert!(w.flushed_len == w.nat.len(), "[C10] native: everything flushed");
+            core::mem::forget(res);
+            return;
+        }
         let n = check_seals(&r, &[], 1, true);
         assert!(!w.mismatch && !w.beyond, "[C10,C01,C02,C06] with partial writes the byte stream still equals the documented layout (no byte lost or repeated)");
         assert!(n == 1 && w.pos == w.exp_len && w.pos == 32 + len, "[C10,C01,C02,C08] with partial writes every record is still written completely");
